@@ -7,7 +7,15 @@ use crate::util::{rd16, rd32, W};
 use acpi_tables::rqsc;
 
 pub struct Rqsc;
-/// shape: bits 0-1 number of resources, bits 2-4 kind of the first resource (kinds rotate)
+/// shape: bits 0-1 number of resources, bits 2-4 kind of the first resource (kinds rotate), bit 5: twelve resources
+/// (a controller structure longer than 255 bytes)
+pub fn nres(shape: u16) -> u16 {
+    if shape & 32 != 0 {
+        12
+    } else {
+        shape & 3
+    }
+}
 pub fn ctl_shape(n: u16, first_kind: u16) -> u16 {
     n | (first_kind << 2)
 }
@@ -82,6 +90,9 @@ impl Table for Rqsc {
         for (n, s) in shapes.iter().enumerate() {
             v.push(Op::new(0, *s, fl[n % fl.len()]));
         }
+        if !_h.iter().any(|o| o.shape & 32 != 0) {
+            v.push(Op::new(0, ctl_shape(0, 1) | 32, fl[0]));
+        }
         v
     }
     fn run(&self, c: &Ctor, ops: &[Op], obs: &mut dyn FnMut(usize, &dyn Aml, &[u32])) {
@@ -91,8 +102,8 @@ impl Table for Rqsc {
             let f = &op.fill;
             let ct = if f.e(0, 2) == 0 { rqsc::ControllerType::Capacity } else { rqsc::ControllerType::Bandwidth };
             let mut q = rqsc::QoSController::new(ct, real_gas(f, 1), f.u32(6), f.u32(7), f.u16(8));
-            for r in 0..(op.shape & 3) {
-                q.add_resource(real_res(f, 9 + 5 * r as u8, res_kind(op.shape, r)));
+            for r in 0..nres(op.shape) {
+                q.add_resource(real_res(f, 9 + 5 * (r % 3) as u8, res_kind(op.shape, r)));
             }
             t.add_controller(q);
             obs(i + 1, &t, &[]);
@@ -108,13 +119,13 @@ impl Table for Rqsc {
             let f = &op.fill;
             let o = w.len();
             let mut rs = W::new();
-            for r in 0..(op.shape & 3) {
-                ref_res(&mut rs, f, 9 + 5 * r as u8, res_kind(op.shape, r));
+            for r in 0..nres(op.shape) {
+                ref_res(&mut rs, f, 9 + 5 * (r % 3) as u8, res_kind(op.shape, r));
             }
             // controller type(1), reserved(1), length(2), register GAS(12), RCID count(4), MCID count(4), flags(2), n resources(2), resources
             w.u8(f.e(0, 2) as u8).u8(0).u16((28 + rs.len()) as u16);
             ref_gas(&mut w, f, 1);
-            w.u32(f.u32(6)).u32(f.u32(7)).u16(f.u16(8)).u16(op.shape & 3).b(&rs.0);
+            w.u32(f.u32(6)).u32(f.u32(7)).u16(f.u16(8)).u16(nres(op.shape)).b(&rs.0);
             ents.push(Ent { off: o, ty: f.e(0, 2) as u32, len: w.len() - o });
         }
         ref_finish(&mut w);
@@ -167,6 +178,7 @@ impl Table for Rqsc {
         for k in 0..7 {
             s.push(ctl_shape(1 + k % 3, k));
         }
+        s.push(ctl_shape(0, 2) | 32);
         s
     }
 }
